@@ -617,3 +617,49 @@ pub fn truncate(s: &str, n: usize) -> String {
         format!("{}…", &s[..e])
     }
 }
+
+/// Contention stress: `threads` threads released from one barrier, each calling `f(thread, round)` for
+/// `rounds` rounds; the first failure (or panic) is returned.  Used for state shared between threads
+/// (caches, staging buffers, pools): the schedule is not controlled, only made dense.
+pub fn contend<F>(check: &str, threads: usize, rounds: usize, f: F) -> CheckResult
+where
+    F: Fn(usize, usize) -> CheckResult + Sync,
+{
+    let barrier = std::sync::Barrier::new(threads);
+    let first: Mutex<Option<Fail>> = Mutex::new(None);
+    let stop = AtomicBool::new(false);
+    std::thread::scope(|s| {
+        for t in 0..threads {
+            let (barrier, first, stop, f) = (&barrier, &first, &stop, &f);
+            s.spawn(move || {
+                barrier.wait();
+                for r in 0..rounds {
+                    if stop.load(Ordering::Relaxed) {
+                        break;
+                    }
+                    let res = match catch(|| f(t, r)) {
+                        Ok(x) => x,
+                        Err(p) => Err(Fail {
+                            check: check.to_string(),
+                            site: format!("panic-under-contention:{}", p.split('@').next().unwrap_or("").chars().filter(|c| !c.is_ascii_digit()).collect::<String>().trim()),
+                            msg: format!("panic while {} threads run the same operations: {}", threads, p),
+                            case: json!({"thread": t, "round": r}),
+                        }),
+                    };
+                    if let Err(e) = res {
+                        stop.store(true, Ordering::SeqCst);
+                        let mut g = first.lock().unwrap();
+                        if g.is_none() {
+                            *g = Some(e);
+                        }
+                        break;
+                    }
+                }
+            });
+        }
+    });
+    match first.into_inner().unwrap() {
+        Some(e) => Err(e),
+        None => Ok(()),
+    }
+}
